@@ -45,16 +45,17 @@ impl TypeParameters {
         if self.unused.is_empty() {
             return None;
         }
+        // List the unused params in declaration order. (The `unused` set itself is ordered by the
+        // concrete type ids behind the params, which change whenever the registry is renumbered.)
+        let unused = self.params.iter().filter(|p| self.unused.contains(p));
         let params = if self.unused.len() == 1 {
-            let param = self
-                .unused
-                .iter()
+            let param = unused
+                .into_iter()
                 .next()
                 .expect("Checked for exactly one unused param");
             quote! { #param }
         } else {
-            let params = self.unused.iter();
-            quote! { ( #( #params ), * ) }
+            quote! { ( #( #unused ), * ) }
         };
         Some(syn::parse_quote! {::core::marker::PhantomData<#params> })
     }
